@@ -158,6 +158,40 @@ def random_geometry(rng, nlegs=None, max_tilt_deg=20.0, max_inc_deg=75.0, intege
                 c_f=c_f, c_l=c_l, c_t=c_t, rho_f=float(rng.uniform(800, 1300)), rho_s=float(rng.uniform(2000, 9000)))
 
 
+def normal_incidence_geometry(rng, integer_source=False):
+    """A ray that meets every wall EXACTLY along its normal: the walls are tilted by a whole number of degrees and the ray leaves
+    the source in that direction (transmission without deviation, reflection back along the same line).  With
+    integer_source the source sits on whole-number coordinates (lengths in units where that is natural; the beamspread is
+    scale-free) so that its Points may be stored in an integer array."""
+    nlegs = int(rng.integers(2, 4))
+    c_f = float(rng.uniform(900, 2000))
+    c_l = float(rng.uniform(3000, 7000))
+    c_t = float(c_l * rng.uniform(0.40, 0.68))
+    modes = ["L"] + [str(rng.choice(["L", "T"])) for _ in range(nlegs - 1)]
+    vels = [c_f] + [c_l if m == "L" else c_t for m in modes[1:]]
+    deg = int(rng.integers(-30, 31))
+    alpha = math.radians(deg)
+    scale = 1.0 if integer_source else 1e-3
+    depth = float(rng.uniform(10, 50)) * scale
+    walls = [((0.0, 0.0), alpha, "T")] + ([((0.0, depth), alpha, "R")] if nlegs == 3 else [])
+    if integer_source:
+        src = (float(int(rng.integers(-3, 4))), -float(int(rng.integers(0, 40))) - (1.0 if deg else 1.0))
+        if rng.random() < 0.3:
+            src = (0.0, -float(int(rng.integers(1, 40))))
+    else:
+        src = (float(rng.uniform(-5, 5)) * scale, -float(rng.uniform(5, 40)) * scale)
+    last_len = float(rng.uniform(5, 30)) * scale
+    r = trace(src, alpha, walls, vels, last_len=last_len)
+    if r is None:
+        return None
+    pts, dirs = r
+    legs = [float(np.linalg.norm(pts[k + 1] - pts[k])) for k in range(nlegs)]
+    return dict(src=src, phi=alpha, walls=walls, vels=vels, last_len=last_len, pts=pts, dirs=dirs,
+                legs=legs, inc=[0.0] * (nlegs - 1), out=[0.0] * (nlegs - 1), nlegs=nlegs, modes=modes, immersion=True,
+                c_f=c_f, c_l=c_l, c_t=c_t, rho_f=float(rng.uniform(800, 1300)), rho_s=float(rng.uniform(2000, 9000)),
+                tilt_degrees=deg)
+
+
 def grazing_geometry(rng):
     """immersion ray whose first leg in the block is within 2 degrees of grazing (88.0 .. 89.6 degrees from the normal of
     a flat front wall), optionally reflected once at a flat back wall (with or without mode conversion)."""
@@ -185,7 +219,7 @@ def grazing_geometry(rng):
                 c_f=c_f, c_l=c_l, c_t=c_t, rho_f=float(rng.uniform(800, 1300)), rho_s=float(rng.uniform(2000, 9000)))
 
 
-def arim_path(geom, arim, physical=False, attenuation=None, decoy=None, rigid=None, spin=None, crowd=None):
+def arim_path(geom, arim, physical=False, attenuation=None, decoy=None, rigid=None, spin=None, crowd=None, int_source=False):
     """One-point Interfaces, Path and Rays for the traced ray (real arim objects).
     physical=True (immersion geometries only): couplant/block Materials, L/T modes and
     interface kinds / transmission-reflection flags as block_in_immersion builds them, so that
@@ -210,6 +244,10 @@ def arim_path(geom, arim, physical=False, attenuation=None, decoy=None, rigid=No
             offs = (np.arange(crowd) - crowd // 2) * 0.2e-3
             pp = np.asarray(p)[None, :] + offs[:, None] * tang[None, :]
             points = g.Points(np.stack([pp[:, 0], np.zeros(crowd), pp[:, 1]], axis=1))
+        elif int_source and i == 0:
+            # the source typed as whole numbers (np.array([[0, 0, -20]])): the same point
+            assert float(p[0]).is_integer() and float(p[1]).is_integer()
+            points = g.Points(np.array([[int(p[0]), 0, int(p[1])]], dtype=np.int64))
         else:
             points = g.Points(np.array([[p[0], 0.0, p[1]]]))
         basis = g.default_orientations(points)
